@@ -257,6 +257,10 @@ impl Interface {
             );
         }
 
+        for interface in &self.implements {
+            registry.add_implements(&self.name, interface);
+        }
+
         registry.types.insert(
             self.name.clone(),
             MetaType::Interface {
